@@ -177,6 +177,16 @@ func caseTimeout() time.Duration {
 
 var watchdogCtx struct {
 	id, part, test string
+	caseJSON       []byte
+}
+
+// failHard records the current case as failing and ends the process.  It is
+// used when a check cannot return normally (e.g. goroutines of the case are
+// deadlocked inside the library).
+func failHard(err error) {
+	writeFail(watchdogCtx.id, watchdogCtx.part, watchdogCtx.test, watchdogCtx.caseJSON, err)
+	fmt.Fprintln(os.Stderr, "FATAL case failure:", err)
+	os.Exit(1)
 }
 
 // safeCheck runs check and converts a panic into an error.  A watchdog turns a
@@ -212,6 +222,7 @@ func RunProp[C any](t *testing.T, id, part string, gen func(*rapid.T) C, check f
 			t.Fatalf("harness: case not serialisable: %v", jerr)
 		}
 		o := &Obs{fp: fingerprint(js)}
+		watchdogCtx.caseJSON = js
 		err := safeCheck(check, c, o)
 		st.commit(o, js)
 		if err != nil {
